@@ -358,6 +358,30 @@ def c_isalnum(ch): return zor([c_isalpha(ch), c_isdigit(ch)])
 def c_isword(ch): return zor([c_isalnum(ch), ceq(ch, 95)])
 
 
+# ---- the same classes as CPython's str methods / unicode regex categories see them, exact for code points 0..255 (computed from CPython itself)
+def _cls(pred): return ''.join(chr(i) for i in range(256) if pred(chr(i)))
+_U = dict(alpha=_cls(str.isalpha), alnum=_cls(str.isalnum), digit=_cls(str.isdigit), decimal=_cls(str.isdecimal), numeric=_cls(str.isnumeric),
+          space=_cls(str.isspace), upper=_cls(str.isupper), lower=_cls(str.islower))
+def u_isalpha(ch): return c_in(ch, _U['alpha'])
+def u_isalnum(ch): return c_in(ch, _U['alnum'])
+def u_isdigit(ch): return c_in(ch, _U['digit'])
+def u_isdecimal(ch): return c_in(ch, _U['decimal'])
+def u_isnumeric(ch): return c_in(ch, _U['numeric'])
+def u_isspace(ch): return c_in(ch, _U['space'])
+def u_isupper(ch): return c_in(ch, _U['upper'])
+def u_islower(ch): return c_in(ch, _U['lower'])
+def u_isword(ch): return zor([u_isalnum(ch), ceq(ch, 95)])
+
+
+def _ascii_only(ch, what):
+    """case mapping is modelled for ASCII only: a character that may be >= 128 makes the path inconclusive instead of being mapped wrongly"""
+    if isinstance(ch, int):
+        if ch >= 128 and (chr(ch).upper() != chr(ch) or chr(ch).lower() != chr(ch)): raise Unsupported(what + ' of a non-ASCII cased character')
+        return
+    if T.simplify_under(cin_range(ch, 0, 127)) is True: return
+    if decide(cin_range(ch, 128, 255)) and decide(zor([u_isupper(ch), u_islower(ch)])): raise Unsupported(what + ' of a non-ASCII cased character')
+
+
 def c_in(ch, chars):
     """one predicate for membership of a character in a set of characters (given as a str);
     consecutive code points are merged into ranges"""
@@ -653,9 +677,11 @@ class SymStr:
         return (mkstr(self.c[:i]), sep, mkstr(self.c[i + len(sep):]))
 
     def upper(self):
+        for ch in self.c: _ascii_only(ch, 'upper()')
         return mkstr([(ch - 32 if 97 <= ch <= 122 else ch) if isinstance(ch, int) else T.iite(cin_range(ch, 97, 122), T.iadd(ch, -32), ch) for ch in self.c])
 
     def lower(self):
+        for ch in self.c: _ascii_only(ch, 'lower()')
         return mkstr([(ch + 32 if 65 <= ch <= 90 else ch) if isinstance(ch, int) else T.iite(cin_range(ch, 65, 90), T.iadd(ch, 32), ch) for ch in self.c])
 
     def casefold(self): return self.lower()
@@ -664,18 +690,18 @@ class SymStr:
         if not self.c: return False
         return mkbool(zand([p(ch) for ch in self.c]))
 
-    def isspace(self): return self._all(c_isspace)
-    def isdigit(self): return self._all(c_isdigit)
-    def isdecimal(self): return self._all(c_isdigit)
-    def isnumeric(self): return self._all(c_isdigit)
-    def isalpha(self): return self._all(c_isalpha)
-    def isalnum(self): return self._all(c_isalnum)
+    def isspace(self): return self._all(u_isspace)
+    def isdigit(self): return self._all(u_isdigit)
+    def isdecimal(self): return self._all(u_isdecimal)
+    def isnumeric(self): return self._all(u_isnumeric)
+    def isalpha(self): return self._all(u_isalpha)
+    def isalnum(self): return self._all(u_isalnum)
     def isupper(self):
         if not self.c: return False
-        return mkbool(T.band([zand([znot(c_islower(ch)) for ch in self.c]), zor([c_isupper(ch) for ch in self.c])]))
+        return mkbool(T.band([zand([znot(u_islower(ch)) for ch in self.c]), zor([u_isupper(ch) for ch in self.c])]))
     def islower(self):
         if not self.c: return False
-        return mkbool(T.band([zand([znot(c_isupper(ch)) for ch in self.c]), zor([c_islower(ch) for ch in self.c])]))
+        return mkbool(T.band([zand([znot(u_isupper(ch)) for ch in self.c]), zor([u_islower(ch) for ch in self.c])]))
     def isascii(self): return self._all(lambda ch: cin_range(ch, 0, 127)) if self.c else True
 
     def isidentifier(self):
